@@ -754,7 +754,11 @@ func (n *Node) unRefExternal() {
 	if atomic.AddInt32(&n.ref, -1) == 0 {
 		n.r.mu.RLock()
 		if n.r.closed {
-			n.callFinalizer()
+			// A Get that ran before Close may have revived the node since
+			// the counter dropped to zero; whoever drops it last finalizes.
+			if atomic.LoadInt32(&n.ref) == 0 {
+				n.callFinalizer()
+			}
 		} else {
 			n.r.delete(n)
 			atomic.AddInt64(&n.r.statDel, 1)
